@@ -194,8 +194,9 @@ def st_basin(draw):
 def st_spec(draw):
     n = draw(st.one_of(
         st.sampled_from([1, 2, 3, 9, 10, 11, 19, 20, 21, 31]),
-        st.integers(1, 40),
-        st.sampled_from([0] + [7] * 11)))
+        st.integers(1, 40)))
+    if draw(st.integers(0, 24)) == 0:
+        n = 0      # file without events
     nsc = draw(st.lists(st.sampled_from(FLOATS + list(INTS)), min_size=1,
                         max_size=6, unique=True))
     # defect-prone features are drawn more often together with their triggers
@@ -931,8 +932,14 @@ def compare(rec, spec, info, pin, pout, task, opts, cls, pre, first):
                         if cmp.ck(an in evo[nm].attrs, f"events/summary-missing/{tag}",
                                   f"{nm}: attribute {an} not complemented"):
                             got, exp = float(evo[nm].attrs[an]), float(fn(a))
+                            # float32 data are reduced in float32 by numpy:
+                            # n*eps = 40*6e-8 = 2.4e-6 of the largest value
+                            # (x100 margin); float64: 40*1.1e-16 (x1e5)
+                            fin = a[np.isfinite(a)]
+                            scale = float(np.max(np.abs(fin))) if fin.size else 0.0
+                            rtol = 3e-4 if evo[nm].dtype.itemsize < 8 else 1e-9
                             good = (np.isnan(got) and np.isnan(exp)) or got == exp or \
-                                abs(got - exp) <= 1e-9 * max(abs(exp), 1e-300)
+                                abs(got - exp) <= rtol * scale
                             if an in evi[nm].attrs:
                                 continue  # copied verbatim (checked above)
                             cmp.ck(good, f"events/summary-value/{tag}",
